@@ -364,7 +364,7 @@ func (e *c13Env) arrive(tid, name int) {
 		switch {
 		case err != nil:
 			r.kind, r.err = "err", err.Error()
-		case cert == nil || len(cert.Certificate) == 0:
+		case cert == nil || len(cert.Certificate) == 0 || cert.PrivateKey == nil: // incomplete: no chain or no private key
 			r.kind = "empty"
 		default:
 			leaf := cert.Leaf
